@@ -66,10 +66,10 @@ func genFunc(w *World, fs *FuncSpec) (*Gen, error) {
 
 func (g *Gen) addAxioms() {
 	for _, ax := range g.W.axioms {
-		pkg := g.W.typesPkgs[ax.pkg]
-		if pkg == nil {
-			continue // axioms of packages that are not part of this load cannot be relevant
+		if _, loaded := g.W.spkgs[ax.pkg]; !loaded {
+			continue // axioms of packages that are not loaded with syntax cannot be relevant
 		}
+		pkg := g.W.typesPkgs[ax.pkg]
 		env := g.specEnv(&State{reach: "true", locals: nil, heap: map[string]string{}, ghosts: map[string]Val{}, alloc: "0", pend: map[string]int{}}, nil)
 		env.calleePkg = pkg
 		g.axioms = append(g.axioms, env.evalBool(ax.c.E))
